@@ -38,6 +38,9 @@ func relationOf(w *World, pre *state.StateDB, tx *types.Transaction) string {
 	if d := id.Delegatee(); d != nil && *d == s {
 		return "own-delegator"
 	}
+	if ds := pre.DelegationSwitch(to); ds != nil && ds.Delegatee == s {
+		return "pending-delegator-of-signer"
+	}
 	if id.Inviter != nil {
 		return "foreign-invitee"
 	}
@@ -259,6 +262,40 @@ func TestVerifC06(t *testing.T) {
 						if ok {
 							reorged = r.Head().Height() - 2
 							rep.Count("reorgs_done", 1)
+						}
+					}
+				}
+			}
+			// a FRESH tx signed for another epoch (never included anywhere), force-appended to an
+			// otherwise valid block: "a transaction signed for another epoch is never applied"
+			if i%3 == 0 {
+				if a := w.pickActor(s.R, func(a *Actor, _ stateIdentity) bool { return w.Balance(a.Addr).Cmp(Dna(50)) > 0 }); a != nil {
+					cur := w.View().AppState.State.Epoch()
+					for _, ep := range []uint16{cur + 1, cur + 2, cur - 1} {
+						if ep == cur || ep > cur+2 {
+							continue // cur-1 wraps at epoch 0
+						}
+						to := w.God.Addr
+						nonce := uint32(1)
+						if ep == cur {
+							nonce = w.StateNonce(a)
+						}
+						tx := SignedTx(a, types.SendTx, &to, Dna(1), Dna(20), nil, nonce, ep, nil)
+						err, usable := replayIntoBlock(twin, tx)
+						if !usable {
+							continue
+						}
+						rep.Eval(1)
+						rep.Count("foreign_epoch_injections", 1)
+						cls := "future-epoch"
+						if ep < cur {
+							cls = "past-epoch"
+						}
+						rep.Count("foreign_epoch_class:"+cls, 1)
+						if err == nil {
+							rep.Violation("foreign-epoch-tx-accepted-in-block:"+cls, fmt.Sprintf("block carrying a tx signed for epoch %d passed validation in epoch %d", ep, cur), nil)
+						} else if !isReplayRefusal(err) {
+							rep.Violation("foreign-epoch-tx-not-stopped-by-epoch-check:"+cls, fmt.Sprintf("block carrying a fresh tx signed for epoch %d got past the nonce/epoch checks in epoch %d; refused only later with: %v", ep, cur, err), nil)
 						}
 					}
 				}
